@@ -1,5 +1,3 @@
-import Mathlib.Tactic.Ring
-import Mathlib.Tactic.Linarith
 /-!
 Arithmetic core of C31's near-linearity clause (pure number facts, no model involved).
 
@@ -18,25 +16,25 @@ theorem core (y0 y1 dl a b D r e t q0 q1 m0 m1 U : Nat)
     (y0 * b + y1 * a) * U ≤ (q0 + q1) * D * U + (dl + 2 * U) * D := by
   -- S·D with S = y0·e + y1·r
   have hS : (q0 + q1) * D * U + (m0 + m1) * D = (y0 * e + y1 * r) * D := by
-    rw [h0, h1]; ring
+    rw [h0, h1]; grind
   have hmD : (m0 + m1) * D ≤ 2 * U * D := Nat.mul_le_mul_right _ (by omega)
   -- b·U + t = D·e
   have hbU : b * U + t = D * e := by
     have h2 : (b + a) * U = D * (e + r) := by rw [hb, he]
-    have h3 : (b + a) * U = b * U + a * U := by ring
-    have h4 : D * (e + r) = D * e + r * D := by ring
+    have h3 : (b + a) * U = b * U + a * U := by grind
+    have h4 : D * (e + r) = D * e + r * D := by grind
     omega
   have hdt : dl * t ≤ dl * D := Nat.mul_le_mul_left _ (Nat.le_of_lt htD)
   -- L·U·D expressed through S·D and (y1 - y0)·t
   have hL : (y0 * b + y1 * a) * U + y0 * t = (y0 * e + y1 * r) * D + y1 * t := by
-    have e1 : (y0 * b + y1 * a) * U + y0 * t = y0 * (b * U + t) + y1 * (a * U) := by ring
-    rw [e1, hbU, ht]; ring
+    have e1 : (y0 * b + y1 * a) * U + y0 * t = y0 * (b * U + t) + y1 * (a * U) := by grind
+    rw [e1, hbU, ht]; grind
   rcases hdl with ⟨_, hd⟩ | ⟨_, hd⟩
-  · have e2 : y1 * t = y0 * t + dl * t := by rw [← hd]; ring
-    have e3 : (dl + 2 * U) * D = dl * D + 2 * U * D := by ring
+  · have e2 : y1 * t = y0 * t + dl * t := by rw [← hd]; grind
+    have e3 : (dl + 2 * U) * D = dl * D + 2 * U * D := by grind
     omega
-  · have e2 : y0 * t = y1 * t + dl * t := by rw [← hd]; ring
-    have e3 : (dl + 2 * U) * D = dl * D + 2 * U * D := by ring
+  · have e2 : y0 * t = y1 * t + dl * t := by rw [← hd]; grind
+    have e3 : (dl + 2 * U) * D = dl * D + 2 * U * D := by grind
     omega
 
 /-- the form used by `C31.near_linear`: floor divisions and `max - min` for `|y1 - y0|` -/
